@@ -4,15 +4,20 @@ HERE = os.path.dirname(os.path.abspath(__file__))
 VERIF = os.path.normpath(os.path.join(HERE, ".."))
 BASE = "cd /repo && /venv/bin/python -m pytest -ra -q -p no:cacheprovider --timeout=900 --continue-on-collection-errors"
 
-CHECKS = {
-  "C11": dict(
-    text="Coq theorems (all byte strings / all strings, unbounded) for the codecs' round trips and canonicity over "
-         "constants regenerated from the source, plus extracted-model/implementation correspondence on exhaustive small "
-         "domains and random inputs.",
-    note="Hash functions are oracles with a length hypothesis; Base32/CBOR delegated to stdlib/cbor2 are modelled from their RFCs.",
-    technique="Coq proof (induction over radix digit lists) + generated-constant obligations + extracted-model differential run",
-    ref="7/C11"),
-}
+import ast, glob
+
+def load_checks():
+    out = {}
+    for p in sorted(glob.glob(os.path.join(HERE, "props", "C*.py"))):
+        tree = ast.parse(open(p).read())
+        for n in tree.body:
+            if isinstance(n, ast.Assign) and any(isinstance(t, ast.Name) and t.id == "MANIFEST" for t in n.targets):
+                out[os.path.basename(p)[:-3]] = ast.literal_eval(n.value)
+    return out
+
+CHECKS = load_checks()
+
+NA = {}
 
 def main():
     props = [json.loads(l)["id"] for l in open(os.path.join(VERIF, "properties.jsonl"))]
@@ -32,7 +37,7 @@ def main():
                 "technique": c["technique"],
             })
         else:
-            na.append({"property_id": p, "reason": "check not built yet in this round (planned, see DESIGN.md section 7)"})
+            na.append({"property_id": p, "reason": NA.get(p, "check not built yet (planned, see DESIGN.md section 7)")})
     man = {
         "version": 1,
         "setup_cmd": "cd /verif && ./setup.sh",
